@@ -288,6 +288,7 @@ func handMadeFamilyScopes(thorough bool) []Scope {
 		{Name: "F-diamond", GS: GridSpec{Kind: "synth", Deepest: 1, Px: 1, Sub: 4, OffPx: [2]int64{1, 9}, TileWidth: 1}, Spec: lat.Spec{Explicit: diamondFamily(thorough), Valid: true}, IDSets: [][]int{{1}}, Cfgs: keepCfgs},
 		{Name: "F-tower", GS: synthGS(0, 4, [2]int64{2, 3}), Spec: lat.Spec{Explicit: towerFamily(thorough), Valid: true}, IDSets: one, Cfgs: keepCfgs},
 		{Name: "F-touch", GS: GridSpec{Kind: "synth", Deepest: 1, Px: 1, Sub: 4, OffPx: [2]int64{1, 9}, TileWidth: 1}, Spec: lat.Spec{Explicit: touchFamily(thorough), Valid: true}, IDSets: [][]int{{1}}, Cfgs: keepCfgs},
+		{Name: "F-moat2", GS: GridSpec{Kind: "synth", Deepest: 1, Px: 1, Sub: 4, OffPx: [2]int64{1, 1}, TileWidth: 1}, Spec: lat.Spec{Explicit: moat2Family(thorough), Valid: true}, IDSets: [][]int{{1}}, Cfgs: keepCfgs},
 		{Name: "F-nested", GS: GridSpec{Kind: "synth", Deepest: 1, Px: 1, Sub: 4, OffPx: [2]int64{2, 3}, TileWidth: 1}, Spec: lat.Spec{Explicit: nestedFamily(thorough), Valid: true}, IDSets: [][]int{{1}}, Cfgs: keepCfgs},
 		{Name: "F-snake", GS: synthGS(0, 8, [2]int64{0, 2}), Spec: lat.Spec{Explicit: snakeFamily(thorough), Valid: true}, IDSets: one, Cfgs: keepCfgs},
 	}
@@ -746,6 +747,51 @@ func combFamily(thorough bool) [][][]ref.P {
 				}
 				for i, p := range hole {
 					hole[i] = ref.P{H + W - p[1], p[0]}
+				}
+			}
+		}
+	}
+	return out
+}
+
+// moat2Family: two lake + ditch constructs (see moatFamily) side by side in one shell: two separate groups of
+// rings that become equal after snapping, each of which must cancel to exactly one hole, whatever the order of
+// the four holes and the start vertices of the ditches.
+func moat2Family(thorough bool) [][][]ref.P {
+	var out [][][]ref.P
+	shell := rect(0, 0, 116, 56, false)
+	gaps := []int64{20, 31}
+	rots := []int{0, 5}
+	if thorough {
+		gaps = []int64{14, 20, 26, 31, 36}
+		rots = []int{0, 3, 5, 6, 11}
+	}
+	mk := func(dx, inset, g int64) (lake, ditch []ref.P) {
+		lake = rect(dx+14+inset, 14+inset, dx+41-inset, 41-inset, true)
+		o0, o1, i0, i1 := int64(12), int64(43), int64(13), int64(42)
+		d := []ref.P{{g + 2, i1}, {g + 2, o1}, {o1, o1}, {o1, o0}, {o0, o0}, {o0, o1}, {g, o1}, {g, i1}, {i0, i1}, {i0, i0}, {i1, i0}, {i1, i1}}
+		if ref.Area2(d) > 0 {
+			for l, r := 0, len(d)-1; l < r; l, r = l+1, r-1 {
+				d[l], d[r] = d[r], d[l]
+			}
+		}
+		for _, p := range d {
+			ditch = append(ditch, ref.P{p[0] + dx, p[1]})
+		}
+		return
+	}
+	for _, inset := range []int64{0, 1} {
+		for _, ga := range gaps {
+			for _, gb := range gaps {
+				la, da := mk(0, inset, ga)
+				lb, db := mk(60, inset, gb)
+				for _, ra := range rotations(da, rots) {
+					for _, rb := range rotations(db, rots) {
+						if !ref.HoleOK(shell, nil, la) || !ref.HoleOK(shell, [][]ref.P{la}, ra) || !ref.HoleOK(shell, [][]ref.P{la, ra}, lb) || !ref.HoleOK(shell, [][]ref.P{la, ra, lb}, rb) {
+							continue
+						}
+						out = append(out, [][]ref.P{shell, la, ra, lb, rb}, [][]ref.P{shell, rb, la, lb, ra}, [][]ref.P{shell, la, lb, ra, rb})
+					}
 				}
 			}
 		}
